@@ -19,6 +19,9 @@ def check(ctx):
         "non-zero constant c on every call, composes the id as (prefix << 32) | counter, draws the prefix at random per thread "
         "and falls back to a random id during thread-local teardown; R8 enter_with_parents answers with a no-op span only when the "
         "token collected from all parents is empty (never because of the first parent alone).")
+    ctx.explanation += (" R9 the delivery bundle: queues drained to their end with the registry filtered in place, closed = closed and empty, "
+                        "stale sets kept unless cancelable, shared sets fanned out to every parent, one sampling filter at the choke point, a scope "
+                        "records iff any parent is sampled, setting a local parent opens a scope, no-op only without a recording parent.")
     ctx.not_decided = ("uniqueness / non-zero of generated ids as values (collisions of random prefixes, counter wrap-around after 2^32 ids: value level); that the "
                        "tree is right for every nesting (the rules show each link is built from the right source, not "
                        "that the source holds the right runtime value).")
@@ -37,3 +40,6 @@ def check(ctx):
     if c.need("R5"):
         spanrules.rule_fanout(ctx, c, "R5")
     spanrules.rule_noop_only_without_parent(ctx, facts, "R8")
+    # what delivery as such needs (see props/common.py)
+    from .common import delivery_bundle
+    delivery_bundle(ctx, ctx.facts("E"), "R9")
